@@ -395,7 +395,8 @@ func (ro *RedisOutput) rdbReplay(ctx context.Context, pipe <-chan *rdb.BinEntry)
 				return nil
 			}
 		case <-ctx.Done():
-			return nil
+			// stopped before the end of the snapshot was seen: the replay is incomplete
+			return ctx.Err()
 		}
 
 		filterOut := false
